@@ -723,6 +723,13 @@ def swap_site(out_ops_list, primary_ops: List, swap_jw: bool, algo="Hopcroft-Kar
         for op in new_out_ops3_unsorted[idx1]:
             new_out_ops3[idx2].append(OpTuple(symbol=op.symbol, qn=op.qn, factor=op.factor * dummy_op.factor))
         del dummy_op, idx1, idx2
+    labels_in_table = set(table[:, 3].tolist())
+    for i, (out_op, old_out_op) in enumerate(zip(new_out_ops3, out_ops3)):
+        if len(out_op) == 0 and (n_primary_ops + i) not in labels_in_table:
+            # the original bond operator vanishes identically (all of its expanded terms cancelled).
+            # Keep its label with a zero factor so that the bond index and its quantum number survive
+            ref_op = new_out_ops3_unsorted[0][0]
+            out_op.append(OpTuple(symbol=ref_op.symbol, qn=old_out_op[0].qn, factor=0.0))
     assert all(len(out_op) != 0 for out_op in new_out_ops3)
 
     if not swap_jw:
